@@ -63,6 +63,11 @@ type responseWriter struct {
 	// $ protoc example.proto --insertion-point-receiver_out=. --insertion-point-writer_out=$(pwd)
 	//
 	readWriteBuckets map[string]storage.ReadWriteBucket
+	// The absolute paths of the files generated so far, used to detect
+	// two responses generating the same file. Two responses can refer to
+	// the same file through different output paths, e.g. "gen" and
+	// "../cwd/gen", or "gen" with "sub/a.txt" and "gen/sub" with "a.txt".
+	generatedFilePaths map[string]struct{}
 	// Cache the functions used to flush all of the responses to disk.
 	// This holds all of the buckets in-memory so that we only write
 	// the results to disk if all of the responses are successful.
@@ -85,6 +90,7 @@ func newResponseWriter(
 		responseWriter:          bufprotoplugin.NewResponseWriter(logger),
 		createOutDirIfNotExists: responseWriterOptions.createOutDirIfNotExists,
 		readWriteBuckets:        make(map[string]storage.ReadWriteBucket),
+		generatedFilePaths:      make(map[string]struct{}),
 	}
 }
 
@@ -132,6 +138,7 @@ func (w *responseWriter) Close() error {
 	}
 	// Re-initialize the cached values to be safe.
 	w.readWriteBuckets = make(map[string]storage.ReadWriteBucket)
+	w.generatedFilePaths = make(map[string]struct{})
 	w.closers = nil
 	return nil
 }
@@ -142,6 +149,9 @@ func (w *responseWriter) addResponse(
 	pluginOut string,
 	createOutDirIfNotExists bool,
 ) error {
+	if err := w.checkNotAlreadyGenerated(response, pluginOut); err != nil {
+		return err
+	}
 	switch filepath.Ext(pluginOut) {
 	case ".jar":
 		return w.writeZip(
@@ -289,6 +299,31 @@ func (w *responseWriter) writeDirectory(
 		}
 		return nil
 	})
+	return nil
+}
+
+// checkNotAlreadyGenerated returns an error if the response generates a file that
+// an earlier response already generated. pluginOut must be absolute.
+//
+// Files with an insertion point are skipped, they write to files that already exist.
+func (w *responseWriter) checkNotAlreadyGenerated(
+	response *pluginpb.CodeGeneratorResponse,
+	pluginOut string,
+) error {
+	filePaths := make(map[string]struct{}, len(response.GetFile()))
+	for _, file := range response.GetFile() {
+		if file.GetInsertionPoint() != "" {
+			continue
+		}
+		filePath := filepath.Join(pluginOut, normalpath.Unnormalize(file.GetName()))
+		if _, ok := w.generatedFilePaths[filePath]; ok {
+			return fmt.Errorf("file %q was generated multiple times", filePath)
+		}
+		filePaths[filePath] = struct{}{}
+	}
+	for filePath := range filePaths {
+		w.generatedFilePaths[filePath] = struct{}{}
+	}
 	return nil
 }
 
